@@ -41,10 +41,12 @@ Unit(i) == [j \in 1..6 |-> IF j = i THEN 1 ELSE 0]
 Add(x, y) == [j \in 1..6 |-> x[j] + y[j]]
 
 EvalScrub(r) ==
-    LET e == r.args.e IN
+    LET e == r.args.e
+        m == Scrub(e)
+    IN
     [bad   |-> Fail("C17.Scrub", /\ r.obs.err = ""
                                  /\ ScrubOK(e, r.obs.str) /\ ScrubOK(e, r.obs.alt) /\ ScrubOK(e, r.obs.lst)),
-     drift |-> ~(r.obs.err = "" /\ r.obs.str = Scrub(e) /\ r.obs.alt = Scrub(e) /\ r.obs.lst = Scrub(e)),
+     drift |-> ~(r.obs.err = "" /\ r.obs.str = m /\ r.obs.alt = m /\ r.obs.lst = m),
      cnt   |-> IF r.obs.str # e THEN Unit(1) ELSE Zero]
 
 EvalFind(t, r) ==
